@@ -221,3 +221,29 @@ func writeEddsa(repoRoot, srcRoot, verifRoot string, pinned map[string]string, c
 	}
 	return stale
 }
+
+// ---------------- vectors ----------------
+
+func writeVectors(repoRoot, srcRoot, verifRoot string, pinned map[string]string, check bool) int {
+	b, err := os.ReadFile(filepath.Join(verifRoot, "contracts", "field", "vector.go.tmpl"))
+	if err != nil {
+		return 0
+	}
+	stale := 0
+	for _, p := range fieldPkgs(pinned) {
+		rel := strings.TrimPrefix(p, "./")
+		src, err := os.ReadFile(filepath.Join(srcRoot, rel, "vector.go"))
+		if err != nil || !strings.Contains(string(src), "\nfunc addVecGeneric(") {
+			continue
+		}
+		pkg := ""
+		fmt.Sscanf(after(string(src), "\npackage "), "%s", &pkg)
+		s := strings.ReplaceAll(string(b), "PKG", pkg)
+		if _, err := os.Stat(filepath.Join(srcRoot, rel, "vector_amd64.go")); err != nil {
+			// no assembly variant: the Go wrappers are the only ones, under every build configuration
+			s = strings.ReplaceAll(s, "//@ tags purego\n", "//@ tags any\n")
+		}
+		stale += installText(filepath.Join(repoRoot, rel, "zz_verif_contracts_vector.go"), s, check)
+	}
+	return stale
+}
